@@ -63,7 +63,7 @@ RETURNS = {   # label -> (ret spec, expected out wraps (list of (kind, type text
     'ns-enum': (single(T('gt::Kind')), [('wrap_enum', 'gt.Kind')], 1),
 }
 
-NAMES = ['a', 'b', 'c', 'd', 'e']
+NAMES = ['alpha', 'a', 'alp', 'ha', 'l']     # later names are substrings of earlier ones on purpose
 
 
 def signatures(thorough):
@@ -412,7 +412,7 @@ def run(ctx):
         for i in range(0, len(its), per):
             cases.append({'kind': kind, 'items': its[i:i + per], 'scope': 'gt'})
         # the same family at global scope and two namespaces deep (every 3rd signature in the quick tier)
-        sub = its if ctx.thorough else its[::3]
+        sub = its if ctx.thorough else its[::3] + [it for it in its if it['ret'] != 'int']
         for scope in ('', 'gt::inner'):
             for i in range(0, len(sub), per):
                 cases.append({'kind': kind, 'items': sub[i:i + per], 'scope': scope})
